@@ -19,16 +19,25 @@ fn main() {
         }
         loc.sample(|| serde_json::json!({"f": f, "functors": tfs.len()}));
     }));
-    let spec3 = if quick { Spec { n_min: 3, ..Spec::open(3, 2, 1, 2, 1, 1, 1) } } else { Spec { n_min: 3, ..Spec::open(3, 2, 2, 2, 2, 1, 1) } };
-    let u3 = spec3.universe();
-    let cap3 = if quick { 200_000 } else { 3_000_000 };
-    ctx.run_slice(Slice::new(format!("strict-trait-3-nodes[{} first {} x {} functors]", spec3.name(), cap3.min(u3.count()), tfs.len()), u3.count().min(cap3), |i, loc| {
-        let f = u3.get_open(i);
-        for tf in &tfs {
-            loc.more_cases(1);
-            check_strict::<B>(&f, *tf, loc);
-        }
-    }));
+    // exactly three nodes: complete universes (quick: unary hyperedges, one hyperedge label; thorough: <=1 hyperedge with
+    // everything, 2 hyperedges with one label per sort, 2 unary hyperedges with all labels)
+    let specs3 = if quick {
+        vec![Spec { n_min: 3, ..Spec::open(3, 2, 1, 2, 1, 1, 1) }]
+    } else {
+        let b = Spec { n_min: 3, ..Spec::open(3, 2, 2, 2, 2, 1, 1) };
+        vec![Spec { e_max: 1, ..b.clone() }, Spec { e_min: 2, lw: 1, lx: 1, ..b.clone() }, Spec { e_min: 2, ks: 1, kt: 1, ..b }]
+    };
+    for spec3 in specs3 {
+        let u3 = spec3.universe();
+        let tfs = &tfs;
+        ctx.run_slice(Slice::new(format!("strict-trait-3-nodes[{} x {} functors]", spec3.name(), tfs.len()), u3.count(), move |i, loc| {
+            let f = u3.get_open(i);
+            for tf in tfs {
+                loc.more_cases(1);
+                check_strict::<B>(&f, *tf, loc);
+            }
+        }));
+    }
     ctx.run_slice(Slice::new(format!("lax-trait-via-dyn-functor[{} x {} functors]", spec.name(), tfs_lax.len()), u.count(), |i, loc| {
         let f = u.get_open(i);
         for tf in &tfs_lax {
@@ -87,10 +96,11 @@ fn main() {
             }
         }
     }));
-    let specid = if quick { Spec::open(3, 1, 2, 2, 2, 2, 2) } else { Spec::open(3, 2, 2, 2, 2, 2, 2) };
-    let uid = specid.universe();
-    let capid = if quick { 400_000 } else { 20_000_000 };
-    ctx.run_slice(Slice::new(format!("identity-functors[{} first {}]", specid.name(), capid.min(uid.count())), uid.count().min(capid), |i, loc| check_identity_functors::<B>(&uid.get_open(i), loc)));
+    let specsid = if quick { vec![Spec::open(3, 1, 2, 2, 2, 2, 2)] } else { Spec::family_3x2(2, 0, true) };
+    for specid in specsid {
+        let uid = specid.universe();
+        ctx.run_slice(Slice::new(format!("identity-functors[{}]", specid.name()), uid.count(), |i, loc| check_identity_functors::<B>(&uid.get_open(i), loc)));
+    }
     // functoriality on pairs
     let specp = if quick { Spec::open(2, 1, 1, 2, 1, 1, 1) } else { Spec::open(2, 1, 1, 2, 2, 1, 1) };
     let up = specp.universe().all_open();
